@@ -533,6 +533,12 @@ def run_C13(em, impl, tabs, rng, thorough):
                 b = gen.build(tabs, ident, rng, maskmode=mk, mode="zeros")
                 if b is not None and len(b.payload) <= 1023:
                     pays.append(b.payload)
+    # message numbers without a definition (the decoder's 'unknown' path), twice each with different tails, and number 0
+    for num in (0, 1, 999, 1100, 4072, 4095, rng.randrange(1, 1001), rng.randrange(1240, 4050)):
+        if str(num) in tabs.ALL:
+            continue
+        for _ in range(2):
+            pays.append(bytes([num >> 4, (num & 0xF) << 4 | rng.randrange(16)]) + bytes(rng.randrange(256) for _ in range(rng.randrange(0, 9))))
     order = pays + bad
     rng.shuffle(order)
     # fresh interpreters with different histories: each payload's result must be the same in all of them and here
